@@ -313,7 +313,9 @@ impl Response {
                 let col_count = u32::from_le_bytes(payload[0..4].try_into().unwrap()) as usize;
                 offset += 4;
 
-                let mut columns = Vec::with_capacity(col_count);
+                // Counts come from the peer: never reserve more than the bytes that follow could hold
+                // (every string costs at least its 4-byte length prefix).
+                let mut columns = Vec::with_capacity(col_count.min(payload.len() / 4));
 
                 for _ in 0..col_count {
                     let (col, len) = read_string_with_len(&payload[offset..])?;
@@ -328,9 +330,18 @@ impl Response {
                     u32::from_le_bytes(payload[offset..offset + 4].try_into().unwrap()) as usize;
                 offset += 4;
 
-                let mut data = Vec::with_capacity(row_count);
+                // Rows without columns occupy no bytes at all, so only the frame limit can bound their number.
+                if col_count == 0 && row_count > MAX_MESSAGE_SIZE {
+                    return Err(TcpError::InvalidMessage("Row count too large".into()));
+                }
+                let reserve = if col_count == 0 {
+                    row_count
+                } else {
+                    row_count.min(payload.len() / 4)
+                };
+                let mut data = Vec::with_capacity(reserve);
                 for _ in 0..row_count {
-                    let mut row = Vec::with_capacity(col_count);
+                    let mut row = Vec::with_capacity(col_count.min(payload.len() / 4));
                     for _ in 0..col_count {
                         let (value, len) = read_string_with_len(&payload[offset..])?;
                         row.push(value);
